@@ -406,7 +406,14 @@ class CallMixin:
         result = self.fresh_resolved(ext.returns, ctx.fresh_name(f"ext_{label}"))
         if ext.ensures is not None:
             funcv = self.sidecar_function(ext.ensures)
-            t = self.truth(self.pure_call(funcv, list(args), {"result": result}))
+            wanted = [a.arg for a in funcv.node.args.args]
+            entry = dict(getattr(self, "entry_values", {}) or {})
+            if wanted and all(w == "result" or w in entry for w in wanted) and "result" in wanted:
+                # the assumed postcondition speaks about the contract's own (ghost) parameters
+                entry["result"] = result
+                t = self.truth(self.eval_named(ext.ensures, entry))
+            else:
+                t = self.truth(self.pure_call(funcv, list(args), {"result": result}))
             ctx.assume(t if not isinstance(t, bool) else z3.BoolVal(t))
         return result
 
